@@ -6,9 +6,18 @@ Two layers.  The *tree* layer works on JSON object trees `J` whose member keys a
 document order, repeats allowed — exactly what `ReadMapCB` hands to the reader and what the emitter
 writes between `WriteObjectStart/End`.  The *key* layer is the path-element codec: the text after
 `f:` / `k:` / `v:` / `i:`; its JSON payload is produced / parsed by jsoniter in Go, modelled here by a
-small standard JSON printer / reader restricted to numbers whose shortest decimal form is their exact
-value (the generators of the `ser` domain stay inside that set; outside it the model answers
-`unsupported` and the line is judged on the implementation only).
+small JSON printer / reader that follows jsoniter (not the JSON grammar) where the two differ, restricted
+to numbers whose shortest decimal form is their exact value (the generators of the `ser` domain stay
+inside that set; outside it the model answers `unsupported` and the line is judged on the implementation
+only).
+
+Printing: the NAMES of key fields are written by `WriteObjectField` (no HTML escaping), everything else by
+`WriteVal` with the std-compatible config (HTML escaping, U+2028/9).  Reading: the header of a key is
+inspected by byte; `i:` payloads are Go `int`s; a number is the token of all number characters that
+follow, validated as jsoniter does (`1.`, `01`, `1.5.5`, `1-2` are errors, `1x` is 1) and must denote a
+float64 exactly (otherwise `unsupported`: Go would round); objects become Go maps (key-sorted, the last
+repeat wins) except the top level of `k:`, which is a field list (repeats kept, stable sort); an escaped
+surrogate pair is one code point; `null` is accepted as the name of a second or later member.
 -/
 import SMD.Model.SetTrie
 namespace SMD
@@ -36,6 +45,18 @@ def escapeChar (c : Char) : String :=
   else String.singleton c
 
 def jsonString (s : String) : String := "\"" ++ String.join (s.toList.map escapeChar) ++ "\""
+
+/-- jsoniter `WriteString` (stream_str.go:309-372, no HTML escaping): only `"`, `\\` and the control
+characters below 0x20 are escaped (`\n`, `\r`, `\t`, otherwise `\u00XX`); `<`, `>`, `&`, U+2028 and U+2029
+are written as they are -/
+def escapeCharPlain (c : Char) : String :=
+  if c == '"' then "\\\"" else if c == '\\' then "\\\\"
+  else if c == '\n' then "\\n" else if c == '\r' then "\\r" else if c == '\t' then "\\t"
+  else if c.toNat < 0x20 then "\\u00" ++ String.singleton (hexDigit (c.toNat / 16)) ++ String.singleton (hexDigit (c.toNat % 16))
+  else String.singleton c
+
+/-- `Stream.WriteObjectField` minus the colon = `WriteString` -/
+def jsonStringPlain (s : String) : String := "\"" ++ String.join (s.toList.map escapeCharPlain) ++ "\""
 
 /-- odd part: `u = m * 2^k`, `m` odd (u ≠ 0) -/
 def oddPart : Nat → Int → Nat → Int × Nat
@@ -93,10 +114,21 @@ def jsonFields : List (String × Value) → Option String
     | _, _ => none
 end
 
+/-- the fields of a `k:` key (fieldpath/serialize-pe.go:151-164): each NAME goes through
+`stream.WriteObjectField` (= `WriteString`: no HTML escaping), each VALUE through `WriteVal` with the
+std-compatible config (`jsonValue`: HTML escaping, also of the keys of nested maps) -/
+def jsonKeyFields : List (String × Value) → Option String
+  | [] => some ""
+  | [(k, v)] => (jsonValue v).map fun s => jsonStringPlain k ++ ":" ++ s
+  | (k, v) :: rest =>
+    match jsonValue v, jsonKeyFields rest with
+    | some a, some b => some (jsonStringPlain k ++ ":" ++ a ++ "," ++ b)
+    | _, _ => none
+
 /-- `SerializePathElement` (`none` = the payload is outside the exactly printable numbers) -/
 def serializePE : PE → Option String
   | .field n => some ("f:" ++ n)
-  | .key k => (jsonFields k).map fun s => "k:{" ++ s ++ "}"
+  | .key k => (jsonKeyFields k).map fun s => "k:{" ++ s ++ "}"
   | .value v => (jsonValue v).map fun s => "v:" ++ s
   | .index i => some ("i:" ++ toString i)
   | .invalid => none
@@ -119,19 +151,46 @@ def hexVal (c : Char) : Option Nat :=
   else if 'A' ≤ c ∧ c ≤ 'F' then some (c.toNat - 55)
   else none
 
-/-- JSON string body after the opening quote -/
+/-- jsoniter `readU4`: four hex digits -/
+def readU4 : List Char → Option (Nat × List Char)
+  | a :: b :: c :: d :: rest =>
+    match hexVal a, hexVal b, hexVal c, hexVal d with
+    | some x, some y, some z, some w => some (((x * 16 + y) * 16 + z) * 16 + w, rest)
+    | _, _, _, _ => none
+  | _ => none
+
+/-- `utf16.IsSurrogate` -/
+def isSurrogate (n : Nat) : Bool := decide (0xD800 ≤ n) && decide (n < 0xE000)
+
+/-- jsoniter `appendRune` of a UTF-16 code unit: a surrogate becomes U+FFFD -/
+def runeOfUnit (n : Nat) : Char := if isSurrogate n then Char.ofNat 0xFFFD else Char.ofNat n
+
+/-- JSON string body after the opening quote (jsoniter `ReadString` / `readEscapedChar`, iter_str.go).
+An escaped UTF-16 surrogate pair `\uD83D\uDE00` is combined into one code point; a surrogate that is not
+followed by `\u` becomes U+FFFD; a surrogate followed by a `\uXXXX` that does not complete a pair becomes
+U+FFFD followed by that unit (itself U+FFFD when it is a surrogate).
+Not modelled: once an escape has occurred jsoniter no longer rejects raw control bytes (its slow path
+does not re-check them); the model rejects a raw control character wherever it stands. -/
 def readStringBody : Nat → List Char → List Char → Option (String × List Char)
   | 0, _, _ => none
   | _ + 1, '"' :: cs, acc => some (String.ofList acc.reverse, cs)
   | fuel + 1, '\\' :: c :: cs, acc =>
     if c == 'u' then
-      match cs with
-      | a :: b :: c' :: d :: rest =>
-        match hexVal a, hexVal b, hexVal c', hexVal d with
-        | some x, some y, some z, some w =>
-          readStringBody fuel rest (Char.ofNat (((x * 16 + y) * 16 + z) * 16 + w) :: acc)
-        | _, _, _, _ => none
-      | _ => none
+      match readU4 cs with
+      | none => none
+      | some (r, rest) =>
+        if !isSurrogate r then readStringBody fuel rest (Char.ofNat r :: acc)
+        else
+          match rest with
+          | '\\' :: 'u' :: rest2 =>
+            (match readU4 rest2 with
+             | none => none
+             | some (r2, rest3) =>
+               if r < 0xDC00 && 0xDC00 ≤ r2 && r2 < 0xE000 then
+                 -- `utf16.DecodeRune`
+                 readStringBody fuel rest3 (Char.ofNat (0x10000 + (r - 0xD800) * 0x400 + (r2 - 0xDC00)) :: acc)
+               else readStringBody fuel rest3 (runeOfUnit r2 :: Char.ofNat 0xFFFD :: acc))
+          | _ => readStringBody fuel rest (Char.ofNat 0xFFFD :: acc)
     else
       let r : Option Char :=
         if c == '"' then some '"' else if c == '\\' then some '\\' else if c == '/' then some '/'
@@ -150,32 +209,83 @@ def takeDigits : List Char → List Char × List Char
 
 def digitsToNat (ds : List Char) : Nat := ds.foldl (fun n c => n * 10 + (c.toNat - 48)) 0
 
-/-- a JSON number as an exact float: integer part, optional fraction, optional exponent; `none` when
-the value is not a short dyadic (then rounding would be needed) -/
-def readNumber (cs : List Char) : Option (Except ReadErr (Value × List Char)) :=
-  let (neg, cs1) := match cs with | '-' :: r => (true, r) | _ => (false, cs)
-  let (ip, cs2) := takeDigits cs1
-  if ip.isEmpty then none
+/-- the characters jsoniter's `readNumberAsString` collects into the token it hands to `strconv.ParseFloat` -/
+def isNumChar (c : Char) : Bool :=
+  c.isDigit || c == '+' || c == '-' || c == '.' || c == 'e' || c == 'E'
+
+/-- the number token: the longest prefix of number characters -/
+def takeNumChars : List Char → List Char × List Char
+  | c :: cs => if isNumChar c then let (d, r) := takeNumChars cs; (c :: d, r) else ([], c :: cs)
+  | [] => ([], [])
+
+/-- a well-formed exponent `[eE][+-]?digit+` making up the whole remainder of the token -/
+def isExponent : List Char → Bool
+  | c :: r =>
+    (c == 'e' || c == 'E') &&
+      (match r with
+       | '+' :: t => !t.isEmpty && t.all Char.isDigit
+       | '-' :: t => !t.isEmpty && t.all Char.isDigit
+       | _ => !r.isEmpty && r.all Char.isDigit)
+  | [] => false
+
+/-- the float denoted by the decimal `ip.fp` (digits), exactly; `unsupported` when the value is not a
+float64 — not a short dyadic, more than 53 significant bits, or too large — so that `ParseFloat` would
+round (`9007199254740993`, `4503599627370496.5`) or overflow -/
+def numberValue (neg : Bool) (ip fp rest : List Char) : Except ReadErr (Value × List Char) :=
+  -- value = N / 10^d
+  let n := digitsToNat (ip ++ fp)
+  let d := fp.length
+  -- exact iff N * 2^1074 divisible by 10^d, i.e. by 5^d after cancelling 2^d
+  let num : Nat := n * 2 ^ (1074 - d)
+  if d > 1074 then .error .unsupported
+  else if num % (5 ^ d) != 0 then .error .unsupported
   else
-    let (fp, cs3) := match cs2 with
-      | '.' :: r => let (d, r') := takeDigits r; (d, r')
-      | _ => ([], cs2)
-    let hasExp := match cs3 with | 'e' :: _ | 'E' :: _ => true | _ => false
-    if hasExp then some (.error .unsupported)
-    else
-      -- value = N / 10^d
-      let n := digitsToNat (ip ++ fp)
-      let d := fp.length
-      -- exact iff N * 2^1074 divisible by 10^d, i.e. by 5^d after cancelling 2^d
-      let num : Nat := n * 2 ^ (1074 - d)
-      if d > 1074 then some (.error .unsupported)
-      else if num % (5 ^ d) != 0 then some (.error .unsupported)
-      else
-        let u : Int := (num / 5 ^ d : Nat)
-        some (.ok (.float (if neg then -u else u) (neg && n == 0), cs3))
+    let u : Int := (num / 5 ^ d : Nat)
+    if !isFloat64Units u then .error .unsupported
+    else .ok (.float (if neg then -u else u) (neg && n == 0), rest)
+
+/-- what follows the mantissa inside the token: nothing, or a well-formed exponent (outside the modelled
+subset), or anything else — `ParseFloat` reports a syntax error (`1.5.5`, `1-2`, `1e`, `1+`) -/
+def finishNumber (neg : Bool) (ip fp t3 rest : List Char) : Option (Except ReadErr (Value × List Char)) :=
+  if t3.isEmpty then some (numberValue neg ip fp rest)
+  else if isExponent t3 then some (.error .unsupported)
+  else none
+
+/-- the mantissa `digits [. digits]`: a dot must be followed by a digit (`validateFloat`: "dot can not be
+last character" / "missing digit after dot"), and there must be a digit at all (`ParseFloat`) -/
+def parseMantissa (neg : Bool) (t1 rest : List Char) : Option (Except ReadErr (Value × List Char)) :=
+  match (takeDigits t1).2 with
+  | '.' :: r =>
+    if (takeDigits r).1.isEmpty then none
+    else finishNumber neg (takeDigits t1).1 (takeDigits r).1 (takeDigits r).2 rest
+  | t2 =>
+    if (takeDigits t1).1.isEmpty then none
+    else finishNumber neg (takeDigits t1).1 [] t2 rest
+
+/-- the token after the optional leading `-` (`readPositiveFloat64`, then `readFloat64SlowPath`): the
+fast path rejects a leading dot and a leading zero followed by a digit before the token is handed to
+`ParseFloat`; a token that starts with `+` (reachable only as `-+…`) goes to `ParseFloat` as it is, which
+accepts the sign, leading zeros and a leading dot (`-+01` is -1, `-+.5` is -0.5) -/
+def parseNumTok (neg : Bool) (tok rest : List Char) : Option (Except ReadErr (Value × List Char)) :=
+  match tok with
+  | '+' :: t1 => parseMantissa neg t1 rest
+  | '.' :: _ => none
+  | '0' :: d :: t => if d.isDigit then none else parseMantissa neg ('0' :: d :: t) rest
+  | _ => parseMantissa neg tok rest
+
+/-- a JSON number as jsoniter's `ReadFloat64` reads it (iter_float.go): an optional `-`, then the
+token of all following number characters `[0-9+-.eE]`; `none` = the ordinary error (malformed: trailing
+dot, leading zero, `1.5.5`, `1-2`, a lone `-`, `-.5`), `unsupported` when the value has an exponent or is
+not a short dyadic (rounding would be needed).  The text after the token is not inspected (`1x` is 1). -/
+def readNumber (cs : List Char) : Option (Except ReadErr (Value × List Char)) :=
+  match cs with
+  | '-' :: r => parseNumTok true (takeNumChars r).1 (takeNumChars r).2
+  | _ => parseNumTok false (takeNumChars cs).1 (takeNumChars cs).2
 
 mutual
-/-- a standard JSON value (`fuel` bounds the nesting and the number of members) -/
+/-- a standard JSON value as `jsoniter.Iterator.Read` returns it (`fuel` bounds the nesting and the number
+of members): numbers are floats, objects are maps in canonical form (entries sorted by key, of repeated
+keys the last one kept) at every nesting level -/
 def readValue : Nat → List Char → Except ReadErr (Value × List Char)
   | 0, _ => .error .unsupported
   | fuel + 1, cs =>
@@ -194,7 +304,12 @@ def readValue : Nat → List Char → Except ReadErr (Value × List Char)
     | '{' :: r =>
       (match skipWs r with
        | '}' :: r' => .ok (.map [], r')
-       | _ => readObjMembers fuel r [])
+       | _ =>
+         -- `iter.Read()` builds a Go map (`obj[field] = elem`: the last repeat wins, no order); the
+         -- library then treats maps as key-sorted
+         match readObjMembers fuel r [] with
+         | .ok (m, r') => .ok (.map (goMapFields m), r')
+         | .error e => .error e)
     | c :: r =>
       if c == '-' || c.isDigit then
         (match readNumber (c :: r) with
@@ -212,57 +327,80 @@ def readItems : Nat → List Char → List Value → Except ReadErr (Value × Li
        | ']' :: r'' => .ok (.list (v :: acc).reverse, r'')
        | _ => .error .bad)
     | .error e => .error e
-def readObjMembers : Nat → List Char → List (String × Value) → Except ReadErr (Value × List Char)
+/-- the members of an object after its opening brace, in document order, repeats kept.  jsoniter reads
+the name of the second and later members with `ReadString`, which also accepts the bare token `null` (as
+the empty name); the first name must be a string. -/
+def readObjMembers : Nat → List Char → List (String × Value) → Except ReadErr (List (String × Value) × List Char)
   | 0, _, _ => .error .unsupported
   | fuel + 1, cs, acc =>
-    match skipWs cs with
-    | '"' :: r1 =>
-      (match readStringBody (r1.length + 1) r1 [] with
-       | some (k, r2) =>
-         (match skipWs r2 with
-          | ':' :: r3 =>
-            (match readValue fuel r3 with
-             | .ok (v, r4) =>
-               (match skipWs r4 with
-                | ',' :: r5 => readObjMembers fuel r5 ((k, v) :: acc)
-                | '}' :: r5 => .ok (.map ((k, v) :: acc).reverse, r5)
-                | _ => .error .bad)
-             | .error e => .error e)
-          | _ => .error .bad)
-       | none => .error .bad)
-    | _ => .error .bad
+    let name : Option (String × List Char) :=
+      match skipWs cs with
+      | '"' :: r1 => readStringBody (r1.length + 1) r1 []
+      | 'n' :: 'u' :: 'l' :: 'l' :: r2 => if acc.isEmpty then none else some ("", r2)
+      | _ => none
+    match name with
+    | some (k, r2) =>
+      (match skipWs r2 with
+       | ':' :: r3 =>
+         (match readValue fuel r3 with
+          | .ok (v, r4) =>
+            (match skipWs r4 with
+             | ',' :: r5 => readObjMembers fuel r5 ((k, v) :: acc)
+             | '}' :: r5 => .ok (((k, v) :: acc).reverse, r5)
+             | _ => .error .bad)
+          | .error e => .error e)
+       | _ => .error .bad)
+    | none => .error .bad
 end
 
-/-- `strconv.Atoi` -/
+/-- `strconv.Atoi` (64-bit `int`): `none` also when the value is outside `[-2^63, 2^63-1]`
+("value out of range") -/
 def atoi (cs : List Char) : Option Int :=
   let (neg, ds) := match cs with | '-' :: r => (true, r) | '+' :: r => (false, r) | _ => (false, cs)
   if ds.isEmpty || !ds.all Char.isDigit then none
-  else some (if neg then -(digitsToNat ds : Int) else digitsToNat ds)
+  else
+    let i : Int := if neg then -(digitsToNat ds : Int) else digitsToNat ds
+    if i < -(2 ^ 63 : Int) || (2 ^ 63 : Int) ≤ i then none else some i
 
-/-- `DeserializePathElement` (fieldpath/serialize-pe.go:76-128) -/
-def deserializePE (s : String) : Except ReadErr PE :=
-  match s.toList with
-  | t :: sep :: payload =>
-    if sep != ':' then .error .bad
-    else if t == 'f' then .ok (.field (String.ofList payload))
-    else if t == 'v' then
-      (match readValue (payload.length + 2) payload with
-       | .ok (v, _) => .ok (.value v)       -- trailing bytes are not inspected
-       | .error e => .error e)
-    else if t == 'k' then
-      (match skipWs payload with
-       | 'n' :: 'u' :: 'l' :: 'l' :: _ => .ok (.key [])
-       | '{' :: _ =>
-         (match readValue (payload.length + 2) payload with
-          | .ok (.map m, _) => .ok (.key (FieldList.sort m))
-          | .ok _ => .error .bad
+/-- Go's `[]byte(s)`: the bytes of the UTF-8 text -/
+def utf8Bytes (s : String) : List UInt8 := s.toUTF8.data.toList
+
+/-- the `switch typeSep[0]` of `DeserializePathElement`: `t` is the first byte of the key, `payload` the
+text after the first two bytes -/
+def deserializeTyped (t : UInt8) (payload : List Char) : Except ReadErr PE :=
+  if t == 102 /- 'f' -/ then .ok (.field (String.ofList payload))
+  else if t == 118 /- 'v' -/ then
+    (match readValue (payload.length + 2) payload with
+     | .ok (v, _) => .ok (.value v)       -- trailing bytes are not inspected
+     | .error e => .error e)
+  else if t == 107 /- 'k' -/ then
+    (match skipWs payload with
+     | 'n' :: 'u' :: 'l' :: 'l' :: _ => .ok (.key [])
+     | '{' :: r =>
+       -- `ReadObjectCB`: the fields in document order (repeats kept), then `fields.Sort()`
+       (match skipWs r with
+        | '}' :: _ => .ok (.key [])
+        | _ =>
+          match readObjMembers (payload.length + 1) r [] with
+          | .ok (m, _) => .ok (.key (FieldList.sort m))
           | .error e => .error e)
-       | _ => .error .bad)
-    else if t == 'i' then
-      (match atoi payload with
-       | some i => .ok (.index i)
-       | none => .error .bad)
-    else .error .unknownType
+     | _ => .error .bad)
+  else if t == 105 /- 'i' -/ then
+    (match atoi payload with
+     | some i => .ok (.index i)
+     | none => .error .bad)
+  else .error .unknownType
+
+/-- `DeserializePathElement` (fieldpath/serialize-pe.go:76-128).  The header is inspected by BYTE, as Go
+does: fewer than two bytes, or a second byte other than `:`, is the ordinary error — in particular a
+key whose first character is not a single byte (its second byte is then a continuation byte).  When
+the second byte is `:` the first byte is a whole one-byte character, so the bytes after the first
+two are the text after the first two characters. -/
+def deserializePE (s : String) : Except ReadErr PE :=
+  match utf8Bytes s with
+  | t :: sep :: _ =>
+    if sep != 58 /- ':' -/ then .error .bad
+    else deserializeTyped t (s.toList.drop 2)
   | _ => .error .bad
 
 /-! ### tree layer -/
